@@ -76,6 +76,11 @@ type world struct {
 	rdArr     *gate.Arrival
 	rdRes     *readRes
 	passReads atomic.Bool // reads issued by the checker itself are not scheduled
+	// where the scheduled read of the behaviour is held (Dkv.tla GetHolds / ScanHolds); "between" is the default
+	passBetween atomic.Bool  // this read passes the between-captures gate (it is held somewhere else)
+	snapGid     atomic.Int64 // goroutine of a Get that is to be held inside memtable.List.Get (once)
+	held        chan struct{} // a scan signals that it reached its hold ("returned" / "mid")
+	cont        chan struct{} // closed to let a held scan continue
 	ckWait    map[int]func() (recovery.CheckpointHandle, error)
 	ckArr     map[int]*gate.Arrival
 	handles   map[int]recovery.CheckpointHandle
@@ -151,7 +156,14 @@ func (w *world) opts(v *fsx.View) dkv.DBOptions {
 
 // hook handler: arrivals of databases the replay does not schedule pass through
 func (w *world) hook(point string, args ...any) {
-	if w.passReads.Load() && (point == "dkv.get.between" || point == "dkv.scan.between") {
+	if point == "dkv.memlist.get" {
+		// only the scheduled Get, once, after it took its snapshot of the memtable list
+		if g := w.snapGid.Load(); g != 0 && g == gate.Goid() && w.snapGid.CompareAndSwap(g, 0) {
+			w.s.At(point, args...)
+		}
+		return
+	}
+	if (w.passReads.Load() || w.passBetween.Load()) && (point == "dkv.get.between" || point == "dkv.scan.between") {
 		return
 	}
 	if len(args) > 0 {
@@ -176,7 +188,7 @@ func newWorld(in *mbt.Input) *world {
 		ckWait: map[int]func() (recovery.CheckpointHandle, error){}, ckArr: map[int]*gate.Arrival{},
 		handles: map[int]recovery.CheckpointHandle{}, snap: map[int]map[int]int{}, known: map[int]bool{}, dropped: map[int]bool{}}
 	w.s = gate.New("dkv.flush.start", "dkv.flush.swap", "dkv.compact.pick", "dkv.compact.swap",
-		"dkv.get.between", "dkv.scan.between", "dkv.ckpt.saveWal", "dkv.ckpt.saveDoc")
+		"dkv.get.between", "dkv.scan.between", "dkv.ckpt.saveWal", "dkv.ckpt.saveDoc", "dkv.memlist.get")
 	verifhook.Install(w.hook, func(name string, def int64) int64 {
 		if v, ok := in.Config["tune."+name].(float64); ok {
 			return int64(v)
@@ -326,9 +338,21 @@ func (w *world) awaitRead(point string) error {
 			return nil
 		default:
 		}
-		if a, err := w.s.Await(isMain(w, point), 0); err == nil {
-			w.rdArr = a
-			return nil
+		if w.held != nil {
+			select {
+			case <-w.held:
+				return nil
+			default:
+			}
+		} else {
+			match := isMain(w, point)
+			if point == "dkv.memlist.get" {
+				match = gate.Point(point)
+			}
+			if a, err := w.s.Await(match, 0); err == nil {
+				w.rdArr = a
+				return nil
+			}
 		}
 		time.Sleep(50 * time.Microsecond)
 	}
@@ -336,10 +360,15 @@ func (w *world) awaitRead(point string) error {
 }
 
 func (w *world) finishRead() readRes {
+	defer func() { w.passBetween.Store(false); w.snapGid.Store(0); w.held, w.cont = nil, nil }()
 	if w.rdRes != nil {
 		return *w.rdRes
 	}
-	w.rdArr.Release()
+	if w.cont != nil {
+		close(w.cont)
+	} else {
+		w.rdArr.Release()
+	}
 	return <-w.rdCh
 }
 
@@ -368,25 +397,52 @@ func (w *world) getAll(db *dkv.DB, keys []int) (res readRes) {
 }
 
 func (w *world) scan(db *dkv.DB, prefix []byte) (res readRes) {
+	return w.scanHeld(db, prefix, "", nil, nil)
+}
+
+// scanHeld: at = "returned" pauses after DB.ScanPrefix returned its iterator, "mid" after the first pulled entry
+// (or at the end of an empty scan); the pause is signalled on held and ends when cont is closed
+func (w *world) scanHeld(db *dkv.DB, prefix []byte, at string, held, cont chan struct{}) (res readRes) {
+	paused := false
+	pause := func() {
+		if !paused && held != nil {
+			paused = true
+			held <- struct{}{}
+			<-cont
+		}
+	}
 	defer func() {
 		if p := recover(); p != nil {
 			res.pan = p
+			if !paused && held != nil {
+				paused = true
+				held <- struct{}{} // never leave the replayer waiting for a hold that cannot come
+			}
 		}
 	}()
 	res.vals = map[int]int{}
 	var serr error
-	for e := range db.ScanPrefix(prefix, &serr) {
+	it := db.ScanPrefix(prefix, &serr)
+	if at == "returned" {
+		pause()
+	}
+	for e := range it {
 		res.order = append(res.order, string(e.Key()))
-		if e.IsDelete() {
-			res.vals[w.keyID(e.Key())] = -2 // a tombstone must not be yielded
-			continue
-		}
 		id := w.keyID(e.Key())
-		if _, dup := res.vals[id]; dup {
+		switch _, dup := res.vals[id]; {
+		case e.IsDelete():
+			res.vals[id] = -2 // a tombstone must not be yielded
+		case dup:
 			res.vals[id] = -3 // yielded twice
-			continue
+		default:
+			res.vals[id] = w.valID(e.Value())
 		}
-		res.vals[id] = w.valID(e.Value())
+		if at == "mid" {
+			pause() // after the first pulled entry
+		}
+	}
+	if at == "mid" {
+		pause() // nothing was yielded
 	}
 	res.err = serr
 	return
@@ -689,11 +745,22 @@ func replay(bi int, beh []mbt.Step, in *mbt.Input, res *mbt.Result) {
 			k := st.Int("k")
 			w.rdCh = make(chan readRes, 1)
 			db := w.db
-			go func() { w.rdCh <- w.getAll(db, []int{k}) }()
-			if err := w.awaitRead("dkv.get.between"); err != nil {
+			point := "dkv.get.between"
+			if st.Str("at") == "snap" {
+				point = "dkv.memlist.get"
+				w.passBetween.Store(true)
+			}
+			go func() {
+				if point == "dkv.memlist.get" {
+					w.snapGid.Store(gate.Goid())
+				}
+				w.rdCh <- w.getAll(db, []int{k})
+			}()
+			if err := w.awaitRead(point); err != nil {
 				machinery(si, err)
 				return
 			}
+			res.Count("get_hold_"+point, 1)
 		case "GetEnd":
 			r := w.finishRead()
 			k := st.Int("k")
@@ -717,7 +784,16 @@ func replay(bi int, beh []mbt.Step, in *mbt.Input, res *mbt.Result) {
 			}
 			w.rdCh = make(chan readRes, 1)
 			db := w.db
-			go func() { w.rdCh <- w.scan(db, prefix) }()
+			if at := st.Str("at"); at == "returned" || at == "mid" {
+				w.passBetween.Store(true)
+				w.held, w.cont = make(chan struct{}, 1), make(chan struct{})
+				held, cont := w.held, w.cont
+				go func() { w.rdCh <- w.scanHeld(db, prefix, at, held, cont) }()
+				res.Count("scan_hold_"+at, 1)
+			} else {
+				go func() { w.rdCh <- w.scan(db, prefix) }()
+				res.Count("scan_hold_between", 1)
+			}
 			if err := w.awaitRead("dkv.scan.between"); err != nil {
 				machinery(si, err)
 				return
